@@ -1,4 +1,5 @@
 """C09: encoding is total and every emitted frame is well formed."""
+import engine
 import panics
 import dispatch
 import builder
@@ -40,7 +41,7 @@ def run(ctx, res):
     dispatch.coherence(prog, res, ctx.repo)
     crcq.rule_a_crc(ctx, res)
     import msm
-    msm.rule_guards(prog, res)
+    msm.rule_guards(prog, engine.Filtered(res, {"M-guards"}))
     import textrules
     textrules.rule_utf8_writers(prog, res)
     panics.check_residue_support(inv, res)
